@@ -56,10 +56,14 @@ def printer_tasks(tier):
     ts = [Task('printer.totality', 'contracts.printer:task_totality')]
     for rec, tag, meth in printer.fuc_list():
         ts.append(Task('printer.%s.%s[%s]' % (rec, meth, tag), 'contracts.printer:task_visit', receiver=rec, tag=tag, method=meth))
+    from contracts import tokens
+    for m in tokens.METHODS:
+        ts.append(Task('tokens.%s' % m, 'contracts.tokens:task_method', method=m))
+    ts.append(Task('tokens.callsites', 'contracts.tokens:task_callsites'))
     ts.append(Task('standin.enum_print.depth2', 'contracts.printer:task_standin', standin='enum_print depth 2', script='enum_print.py',
                    args=['--depth', '2'], bound='every (slot, child kind) pair of spec/astlib.py, nesting depth 2, strict re-parse'))
     ts.append(Task('standin.literal_pool', 'contracts.printer:task_standin', standin='literal pool', script='literal_pool.py', args=[],
-                   bound='61 constants of every type x 19 token contexts, strict re-parse'))
+                   bound='constants of every type plus 7 mantissas (1 to 17 significant digits) in each of 65 decades x 19 token contexts, and 39 parsed sources; strict re-parse'))
     if tier == 'thorough':
         for i in range(8):
             ts.append(Task('standin.enum_print.depth3.%d' % i, 'contracts.printer:task_standin', standin='enum_print depth 3 shard %d/8' % i,
@@ -81,7 +85,7 @@ prop('C02', 'Printed source re-parses to exactly the same syntax tree', 'other',
                  'child classes, any depth; z3 over enum tags and Real levels). Constants reach the TokenPrinter method of their own '
                  'type. Level "other": the grammar oracle is hand-written and f-string/float text is covered by bounded stand-ins only.')
 prop('C08', 'Every compilable module is minified without error into a compilable module', 'other', printer_tasks,
-     ['C08/', 'C02/L2/'], replay='props.replay_printer:replay_printer', trusted=PRINTER_TRUST,
+     ['C08/', 'C02/L2/', 'C02/L1/'], replay='props.replay_printer:replay_printer', trusted=PRINTER_TRUST,
      explanation='Partial: exception-freedom of every printer method for a symbolic node of its class (no-exception obligations), totality '
                  'of every class/operator dispatch table of the running interpreter, and the L2 obligations that make the printed text '
                  'parse (so the internal UnstableMinification check cannot fire for the covered part). Code outside the printers is '
